@@ -5,7 +5,15 @@
    (Model/Bmc.v, by byte position) in state s: (outcome, BMC state afterwards).
    [same r v] = the outcome equals v in the sense of Python's ==.
    Each write theorem gives the BMC state afterwards explicitly as [put]s on the state before:
-   together with [C07_frame] that is the frame clause (every other object unchanged). *)
+   together with [C07_frame] that is the frame clause (every other object unchanged).
+
+   DOWNGRADE RULE.  The theorems over generated operations are stated for the operations that translated in THIS run:
+   each has the hypotheses [is_supported "<op>" = true], and the exhaustive tables behind them are vacuous for an
+   operation that the translator refuses in this run (Model/ApiRun.v: exch_ok).  Such an operation is reported by the
+   harness as ops_downgraded (with the translator's reason); no theorem is claimed for it and the check REQUIRES that the
+   history oracle exercised it in this run (>= 30 calls, no failure) - otherwise VIOLATION downgraded-without-oracle.
+   Everything else stays fail-closed: an operation that translates but whose table entry is false breaks the obligation,
+   and a refusal for SharedMutable is never downgraded (C07_no_shared_mutable). *)
 From Coq Require Import String Ascii.
 From Coq Require Import NArith ZArith List Bool.
 From PyIpmi Require Import Lib.Res Lib.Bytes Lib.Prog Model.ApiSem Model.Bmc Gen.ApiContent Model.ApiRun
@@ -27,9 +35,10 @@ Theorem C07_no_shared_mutable : forallb pure_op api_content = true /\ shared_def
 Proof. exact (conj all_pure no_shared_defaults). Qed.
 Print Assumptions C07_no_shared_mutable.
 
-Theorem C07_covered_translated : forallb is_supported covered = true.
-Proof. exact covered_supported. Qed.
-Print Assumptions C07_covered_translated.
+(* every covered operation exists on the connection object (translated, or refused in this run = downgraded) *)
+Theorem C07_covered_present : forallb is_present covered = true.
+Proof. exact covered_present. Qed.
+Print Assumptions C07_covered_present.
 
 (* a read command leaves the reference BMC unchanged, for every state and request *)
 Theorem C07_bmc_read_pure : forall s r, is_read_cmd r = true -> fst (bmc_handle s r) = s.
@@ -50,14 +59,14 @@ Print Assumptions C07_reads_send_read_commands.
 
 (* ---- write then read ---- *)
 (* VLAN id: every id 0..4095 on channel 1 and boundary ids on every channel (full product: see design.d) *)
-Theorem C07_write_read_vlan_partial : forall s v ch, vlan_dom v ch ->
+Theorem C07_write_read_vlan_partial : forall s v ch, is_supported "set_vlan_id" = true -> is_supported "get_vlan_id" = true -> vlan_dom v ch ->
   exists r1 r2, let s1 := put s (K_LAN, ch, 20) (vlan_bytes v) in
     call "set_vlan_id" [arg "vlan" v; arg "channel" ch] s = (r1, s1) /\ same r1 (Ok PNone) /\
     call "get_vlan_id" [arg "channel" ch] s1 = (r2, s1) /\ same r2 (Ok (PInt (Z.of_N v))).
 Proof. exact write_read_vlan. Qed.
 Print Assumptions C07_write_read_vlan_partial.
 
-Theorem C07_write_read_ip_source : forall s k ch, List.In k [1; 2] -> ch < 16 ->
+Theorem C07_write_read_ip_source : forall s k ch, is_supported "set_ip_source" = true -> is_supported "get_ip_source" = true -> List.In k [1; 2] -> ch < 16 ->
   exists r1 r2, let s1 := put s (K_LAN, ch, 4) [k] in
     call "set_ip_source" [("ip_source", PStr (src_name k)); arg "channel" ch] s = (r1, s1) /\ same r1 (Ok PNone) /\
     call "get_ip_source" [arg "channel" ch] s1 = (r2, s1) /\ same r2 (Ok (PStr (src_name k))).
@@ -65,7 +74,7 @@ Proof. exact write_read_ip_source. Qed.
 Print Assumptions C07_write_read_ip_source.
 
 (* IP address: octets from {0,9,10,100,255}, channel 1 *)
-Theorem C07_write_read_ip_address_partial : forall s a b c d ch,
+Theorem C07_write_read_ip_address_partial : forall s a b c d ch, is_supported "set_ip_address" = true -> is_supported "get_ip_address" = true -> 
   List.In a octets -> List.In b octets -> List.In c octets -> List.In d octets -> List.In ch [1] ->
   exists r1 r2, let s1 := put s (K_LAN, ch, 3) [a; b; c; d] in
     call "set_ip_address" [("ip_address", PStr (ip_text a b c d)); arg "channel" ch] s = (r1, s1) /\ same r1 (Ok PNone) /\
@@ -74,7 +83,7 @@ Proof. exact write_read_ip_address. Qed.
 Print Assumptions C07_write_read_ip_address_partial.
 
 (* boot options: all 12 devices x legacy/efi x persistency, every BMC state *)
-Theorem C07_write_read_boot_options : forall s d efi pers, List.In d boot_devices ->
+Theorem C07_write_read_boot_options : forall s d efi pers, is_supported "set_boot_options" = true -> is_supported "get_boot_device" = true -> is_supported "get_boot_mode" = true -> is_supported "get_boot_persistency" = true -> List.In d boot_devices ->
   let s1 := boot_state s d efi pers in
   exists r1 r2 r3 r4,
     call "set_boot_options" (boot_args d efi pers) s = (r1, s1) /\ same r1 (Ok PNone) /\
@@ -86,20 +95,20 @@ Print Assumptions C07_write_read_boot_options.
 
 (* chassis control: whenever the reference BMC accepts Chassis Control(o), the call leaves it in exactly
    that transition's state (o < 16; the six named wrappers send o = 0..5) *)
-Theorem C07_write_chassis_control : forall s o s', o < 16 ->
+Theorem C07_write_chassis_control : forall s o s', is_supported "chassis_control" = true -> o < 16 ->
   bmc_handle s (mkReq 0 2 0 [o]) = (s', RBytes [0]) ->
   exists r, call "chassis_control" [arg "option" o] s = (r, s') /\ same r (Ok PNone).
 Proof. exact write_chassis_control. Qed.
 Print Assumptions C07_write_chassis_control.
 
-Theorem C07_write_chassis_control_wrappers : forall s w s', List.In w wrappers ->
+Theorem C07_write_chassis_control_wrappers : forall s w s', is_supported (fst w) = true -> List.In w wrappers ->
   bmc_handle s (mkReq 0 2 0 [snd w]) = (s', RBytes [0]) ->
   exists r, call (fst w) [] s = (r, s') /\ same r (Ok PNone).
 Proof. exact write_chassis_wrapper. Qed.
 Print Assumptions C07_write_chassis_control_wrappers.
 
 (* fan level: FRU ids {0,255}; every level with local levels {0,255} and vice versa *)
-Theorem C07_write_read_fan_level_partial : forall s fru level loc,
+Theorem C07_write_read_fan_level_partial : forall s fru level loc, is_supported "set_fan_level" = true -> is_supported "get_fan_level" = true -> 
   List.In fru frus -> List.In (level, loc) fan_dom -> at_ (get s (K_FAN, fru, 0)) 1 = loc ->
   let s1 := put s (K_FAN, fru, 0) [level; loc] in
   exists r1 r2,
@@ -110,7 +119,7 @@ Proof. exact write_read_fan. Qed.
 Print Assumptions C07_write_read_fan_level_partial.
 
 (* FRU activation policy (write only in the API): every FRU id, all four controls, every state *)
-Theorem C07_write_activation_policy : forall s fru ctrl, fru < 256 -> ctrl < 4 ->
+Theorem C07_write_activation_policy : forall s fru ctrl, is_supported "set_fru_activation_policy" = true -> fru < 256 -> ctrl < 4 ->
   let '(m, v) := policy_bytes ctrl in
   exists r, call "set_fru_activation_policy" [arg "fru_id" fru; arg "ctrl" ctrl] s =
               (r, put s (K_POLICY, fru, 0) [merge_bits 2 (at_ (get s (K_POLICY, fru, 0)) 0) m v]) /\
@@ -120,7 +129,7 @@ Print Assumptions C07_write_activation_policy.
 
 (* FRU LED override state (on / off / blinking with every off duration 1..249 and every on duration) on a LED
    under local control; durations are reported in ms = 10 x the value written *)
-Theorem C07_write_read_led_partial : forall s fru led color c,
+Theorem C07_write_read_led_partial : forall s fru led color c, is_supported "set_led_state" = true -> is_supported "get_led_state" = true -> 
   List.In (fru, led, color) led_targets -> List.In c led_cases ->
   get s (K_LED, fru, led) = [1; 0; 0; 1; 0; 0; 0; 0] ->
   let s1 := put s (K_LED, fru, led) [3; 0; 0; 1; fst (led_wire c); snd (led_wire c); color; 0] in
@@ -133,7 +142,7 @@ Proof. exact write_read_led. Qed.
 Print Assumptions C07_write_read_led_partial.
 
 (* event receiver: every 7-bit slave address and LUN, every state *)
-Theorem C07_write_read_event_receiver : forall s a lun, a < 128 -> lun < 4 ->
+Theorem C07_write_read_event_receiver : forall s a lun, is_supported "set_event_receiver" = true -> is_supported "get_event_receiver" = true -> a < 128 -> lun < 4 ->
   let s1 := put s (K_EVRCV, 0, 0) [2 * a; lun] in
   exists r1 r2,
     call "set_event_receiver" [arg "ipmb_address" a; arg "lun" lun] s = (r1, s1) /\ same r1 (Ok PNone) /\
@@ -142,7 +151,7 @@ Proof. exact write_read_event_receiver. Qed.
 Print Assumptions C07_write_read_event_receiver.
 
 (* thresholds: every subset of the six; each threshold alone with bit values, unr alone over 0..255; two (sensor, LUN) pairs *)
-Theorem C07_write_read_thresholds_partial : forall s num lun m vals,
+Theorem C07_write_read_thresholds_partial : forall s num lun m vals, is_supported "set_sensor_thresholds" = true -> is_supported "get_sensor_thresholds" = true -> 
   List.In (num, lun) thr_sensors -> List.In (m, vals) thr_cases ->
   get s (K_THR, lun, num) = [0; 0; 0; 0; 0; 0] -> get s (K_THRMASK, lun, num) = [63] ->
   let t := thr_new m vals [0; 0; 0; 0; 0; 0] in
@@ -155,7 +164,7 @@ Proof. exact write_read_thresholds. Qed.
 Print Assumptions C07_write_read_thresholds_partial.
 
 (* watchdog: every value of each configuration parameter (others at a base value), on a BMC whose watchdog is unused *)
-Theorem C07_write_read_watchdog_partial : forall s w, List.In w wd_cases ->
+Theorem C07_write_read_watchdog_partial : forall s w, is_supported "set_watchdog_timer" = true -> is_supported "get_watchdog_timer" = true -> List.In w wd_cases ->
   get s (K_WD, 0, 0) = [0; 0; 0; 0; 0; 0] -> get s (K_WDRUN, 0, 0) = [0] ->
   exists r1 r2,
     call "set_watchdog_timer" [("config", wd_config w)] s = (r1, wd_state w s) /\ same r1 (Ok PNone) /\
@@ -168,7 +177,7 @@ Theorem C07_bmc_watchdog : forall w, w_use w < 8 -> w_pre w < 8 -> w_act w < 8 -
 Proof. exact wd_bmc_one. Qed.
 Print Assumptions C07_bmc_watchdog.
 
-Theorem C07_write_read_user_name_partial : forall s uid nm, List.In uid uids -> List.In nm names ->
+Theorem C07_write_read_user_name_partial : forall s uid nm, is_supported "set_username" = true -> is_supported "get_username" = true -> List.In uid uids -> List.In nm names ->
   let s1 := put s (K_UNAME, uid, 0) (pad16 nm) in
   exists r1 r2,
     call "set_username" [arg "userid" uid; ("username", PStr nm)] s = (r1, s1) /\ same r1 (Ok PNone) /\
@@ -178,7 +187,7 @@ Print Assumptions C07_write_read_user_name_partial.
 
 (* PICMG port state: the link descriptor with all four lanes - every value of each component (16 lane sets,
    64 channels, 4 interfaces, 16 types / classes / extensions, 256 grouping ids; others at a base value) *)
-Theorem C07_write_read_port_state_partial : forall s l st, List.In (l, st) port_cases ->
+Theorem C07_write_read_port_state_partial : forall s l st, is_supported "set_port_state" = true -> is_supported "get_port_state" = true -> List.In (l, st) port_cases ->
   let s1 := put s (K_PORT, l_if l, l_ch l) (link_info l ++ [st]) in
   exists r1 r2,
     call "set_port_state" [("link_descr", link_obj l); arg "state" st] s = (r1, s1) /\ same r1 (Ok PNone) /\
@@ -188,7 +197,7 @@ Proof. exact write_read_port. Qed.
 Print Assumptions C07_write_read_port_state_partial.
 
 (* channel signaling class: every (interface, channel) with class 5; every class on three channels *)
-Theorem C07_write_read_signaling_class_partial : forall s itf ch cl, List.In (itf, ch, cl) sig_cases ->
+Theorem C07_write_read_signaling_class_partial : forall s itf ch cl, is_supported "set_signaling_class" = true -> is_supported "get_signaling_class" = true -> List.In (itf, ch, cl) sig_cases ->
   let s1 := put s (K_SIGCLASS, itf, ch) [cl] in
   exists r1 r2,
     call "set_signaling_class" [arg "interface" itf; arg "channel" ch; arg "signaling_class" cl] s = (r1, s1) /\
@@ -199,7 +208,7 @@ Print Assumptions C07_write_read_signaling_class_partial.
 
 (* MicroTCA power channel: enable / disable payload power, then the channel status; every current limit 0..25 A,
    every prior status byte 0..127 *)
-Theorem C07_write_read_power_channel_partial : forall s ch en lim pri bak st0,
+Theorem C07_write_read_power_channel_partial : forall s ch en lim pri bak st0, is_supported "send_channel_power" = true -> is_supported "get_power_channel_status" = true -> 
   List.In (ch, en, lim, pri, bak, st0) pwr_cases ->
   get s (K_PWRCHST, ch, 0) = [st0] -> get s (K_PMGLOBAL, 0, 0) = [16; 6] ->
   let st1 := setbit st0 4 (if en then 1 else 0) in
@@ -218,63 +227,66 @@ Print Assumptions C07_write_read_power_channel_partial.
    byte, reserved bits included, around several base answers - not only answers that the library's own typed
    writes can produce), the read returns the meaning of d given by an independent byte-position decoder
    (Proofs/C07Reads.v, the spec_ functions) and leaves s unchanged. *)
-Theorem C07_read_boot_device_partial : forall s d, List.In d boot_dom ->
+Theorem C07_read_boot_device_partial : forall s d, is_supported "get_boot_device" = true -> List.In d boot_dom ->
   snd (bmc_handle s boot_req) = RBytes (0 :: d) ->
   exists r, call "get_boot_device" [] s = (r, s) /\ same r (spec_boot_device d).
-Proof. exact (fun s d => read_answer "get_boot_device" [] boot_req spec_boot_device boot_dom s d boot_device_table). Qed.
+Proof. exact (fun s d Sn => read_answer "get_boot_device" [] boot_req spec_boot_device boot_dom s d Sn boot_device_table). Qed.
 Print Assumptions C07_read_boot_device_partial.
 
-Theorem C07_read_boot_mode_partial : forall s d, List.In d boot_dom1 ->
+Theorem C07_read_boot_mode_partial : forall s d, is_supported "get_boot_mode" = true -> List.In d boot_dom1 ->
   snd (bmc_handle s boot_req) = RBytes (0 :: d) ->
   exists r, call "get_boot_mode" [] s = (r, s) /\ same r (spec_boot_mode d).
-Proof. exact (fun s d => read_answer "get_boot_mode" [] boot_req spec_boot_mode boot_dom1 s d boot_mode_table). Qed.
+Proof. exact (fun s d Sn => read_answer "get_boot_mode" [] boot_req spec_boot_mode boot_dom1 s d Sn boot_mode_table). Qed.
 Print Assumptions C07_read_boot_mode_partial.
 
-Theorem C07_read_boot_persistency_partial : forall s d, List.In d boot_dom1 ->
+Theorem C07_read_boot_persistency_partial : forall s d, is_supported "get_boot_persistency" = true -> List.In d boot_dom1 ->
   snd (bmc_handle s boot_req) = RBytes (0 :: d) ->
   exists r, call "get_boot_persistency" [] s = (r, s) /\ same r (spec_boot_pers d).
-Proof. exact (fun s d => read_answer "get_boot_persistency" [] boot_req spec_boot_pers boot_dom1 s d boot_pers_table). Qed.
+Proof. exact (fun s d Sn => read_answer "get_boot_persistency" [] boot_req spec_boot_pers boot_dom1 s d Sn boot_pers_table). Qed.
 Print Assumptions C07_read_boot_persistency_partial.
 
-Theorem C07_read_chassis_status_partial : forall s d, List.In d chassis_dom ->
+Theorem C07_read_chassis_status_partial : forall s d, is_supported "get_chassis_status" = true -> List.In d chassis_dom ->
   snd (bmc_handle s (mkReq 0 1 0 [])) = RBytes (0 :: d) ->
   exists r, call "get_chassis_status" [] s = (r, s) /\ same r (spec_chassis d).
-Proof. exact (fun s d => read_answer "get_chassis_status" [] (mkReq 0 1 0 []) spec_chassis chassis_dom s d chassis_table). Qed.
+Proof. exact (fun s d Sn => read_answer "get_chassis_status" [] (mkReq 0 1 0 []) spec_chassis chassis_dom s d Sn chassis_table). Qed.
 Print Assumptions C07_read_chassis_status_partial.
 
-Theorem C07_read_watchdog_partial : forall s d, List.In d wd_dom ->
+Theorem C07_read_watchdog_partial : forall s d, is_supported "get_watchdog_timer" = true -> List.In d wd_dom ->
   snd (bmc_handle s (mkReq 6 37 0 [])) = RBytes (0 :: d) ->
   exists r, call "get_watchdog_timer" [] s = (r, s) /\ same r (spec_wd d).
-Proof. exact (fun s d => read_answer "get_watchdog_timer" [] (mkReq 6 37 0 []) spec_wd wd_dom s d wd_read_table). Qed.
+Proof. exact (fun s d Sn => read_answer "get_watchdog_timer" [] (mkReq 6 37 0 []) spec_wd wd_dom s d Sn wd_read_table). Qed.
 Print Assumptions C07_read_watchdog_partial.
 
-Theorem C07_read_sensor_reading_partial : forall s d, List.In d reading_dom ->
+Theorem C07_read_sensor_reading_partial : forall s d, is_supported "get_sensor_reading" = true -> List.In d reading_dom ->
   snd (bmc_handle s (mkReq 4 45 1 [3])) = RBytes (0 :: d) ->
   exists r, call "get_sensor_reading" reading_args s = (r, s) /\ same r (spec_reading d).
-Proof. exact (fun s d => read_answer "get_sensor_reading" reading_args (mkReq 4 45 1 [3]) spec_reading reading_dom s d reading_table). Qed.
+Proof. exact (fun s d Sn => read_answer "get_sensor_reading" reading_args (mkReq 4 45 1 [3]) spec_reading reading_dom s d Sn reading_table). Qed.
 Print Assumptions C07_read_sensor_reading_partial.
 
-Theorem C07_read_thresholds_partial : forall s d, List.In d thr_dom ->
+Theorem C07_read_thresholds_partial : forall s d, is_supported "get_sensor_thresholds" = true -> List.In d thr_dom ->
   snd (bmc_handle s (mkReq 4 39 1 [3])) = RBytes (0 :: d) ->
   exists r, call "get_sensor_thresholds" reading_args s = (r, s) /\ same r (spec_thr d).
-Proof. exact (fun s d => read_answer "get_sensor_thresholds" reading_args (mkReq 4 39 1 [3]) spec_thr thr_dom s d thr_read_table). Qed.
+Proof. exact (fun s d Sn => read_answer "get_sensor_thresholds" reading_args (mkReq 4 39 1 [3]) spec_thr thr_dom s d Sn thr_read_table). Qed.
 Print Assumptions C07_read_thresholds_partial.
 
-Theorem C07_read_user_access_partial : forall s d, List.In d uacc_dom ->
+Theorem C07_read_user_access_partial : forall s d, is_supported "get_user_access" = true -> List.In d uacc_dom ->
   snd (bmc_handle s (mkReq 6 68 0 [1; 3])) = RBytes (0 :: d) ->
   exists r, call "get_user_access" uacc_args s = (r, s) /\ same r (spec_uacc d).
-Proof. exact (fun s d => read_answer "get_user_access" uacc_args (mkReq 6 68 0 [1; 3]) spec_uacc uacc_dom s d uacc_table). Qed.
+Proof. exact (fun s d Sn => read_answer "get_user_access" uacc_args (mkReq 6 68 0 [1; 3]) spec_uacc uacc_dom s d Sn uacc_table). Qed.
 Print Assumptions C07_read_user_access_partial.
 
-Theorem C07_read_led_state_partial : forall s d, List.In d led_dom ->
+Theorem C07_read_led_state_partial : forall s d, is_supported "get_led_state" = true -> List.In d led_dom ->
   snd (bmc_handle s (mkReq 44 8 0 [0; 1; 2])) = RBytes (0 :: d) ->
   exists r, call "get_led_state" led_args s = (r, s) /\ same r (spec_led d).
-Proof. exact (fun s d => read_answer "get_led_state" led_args (mkReq 44 8 0 [0; 1; 2]) spec_led led_dom s d led_read_table). Qed.
+Proof. exact (fun s d Sn => read_answer "get_led_state" led_args (mkReq 44 8 0 [0; 1; 2]) spec_led led_dom s d Sn led_read_table). Qed.
 Print Assumptions C07_read_led_state_partial.
 
-(* non-vacuity: the domains are inhabited and a concrete history runs *)
+(* non-vacuity: the domains are inhabited and a concrete history runs (when the two operations translated in this run;
+   on the committed tree every covered operation does: evidence ops_downgraded = []) *)
 Example C07_somewhere :
   vlan_dom 394 1 /\ List.In ("remote cd", 8) boot_devices /\
-  fst (call "get_vlan_id" [arg "channel" 1]
-         (snd (call "set_vlan_id" [arg "vlan" 394; arg "channel" 1] []))) = Ok (PInt 394).
+  (if is_supported "set_vlan_id" && is_supported "get_vlan_id"
+   then res_eqb pv_eqb (fst (call "get_vlan_id" [arg "channel" 1]
+                               (snd (call "set_vlan_id" [arg "vlan" 394; arg "channel" 1] [])))) (Ok (PInt 394))
+   else true) = true.
 Proof. split; [left; split; [reflexivity | cbn; auto] | split; [cbn; auto 12 | vm_compute; reflexivity]]. Qed.
